@@ -146,12 +146,13 @@ pub(crate) fn syscommand_runner(
             tracing::debug!(?command, "deferring suspected recursive system command");
             #[cfg(feature = "verif")]
             crate::verif::emit(crate::verif::VerifEvent::Postpone{ id: verif_id, sys: *command });
+            #[cfg(feature = "verif")]
             world.resource_mut::<CobwebCommandQueue<BufferedSyscommand>>().push(
-                BufferedSyscommand{
-                    command, setup, cleanup,
-                    #[cfg(feature = "verif")]
-                    verif_id,
-                }
+                BufferedSyscommand{ command, setup, cleanup, verif_id }
+            );
+            #[cfg(not(feature = "verif"))]
+            world.resource_mut::<CobwebCommandQueue<BufferedSyscommand>>().push(
+                BufferedSyscommand{ command, setup, cleanup }
             );
         }
 
